@@ -312,13 +312,22 @@ def deterministic_states(c, n_steps):
 _AVG = {}
 
 
+class KeyedScriptedAC(ScriptedAC):
+    """acts from the script when called without a key (greedy / deterministic evaluation) and with the FLIPPED script action when a
+    key is given: whether an evaluation really ran deterministically is then visible in the return"""
+
+    def __call__(self, state, observation, *, key=None, action_mask=None):
+        st, a = ScriptedAC.__call__(self, state, observation, key=key, action_mask=action_mask)
+        return st, (a if key is None else 1 - a)
+
+
 def clause_average(cases, ctx: Ctx):
     """case: table + {script, num_episodes, max_steps, keys, deterministic}"""
     out = []
     for ci, c in enumerate(cases):
         env = collect.build_env(c)
-        pol = ScriptedAC(env, np.asarray(c["script"]))
-        k = (c["S"], c["A"], c["act_kind"], bool(c.get("tl")), len(c["script"]), c["num_episodes"], c["max_steps"], c["deterministic"])
+        pol = (KeyedScriptedAC if c.get("keyed") else ScriptedAC)(env, np.asarray(c["script"]))
+        k = (c["S"], c["A"], c["act_kind"], bool(c.get("tl")), len(c["script"]), c["num_episodes"], c["max_steps"], c["deterministic"], bool(c.get("keyed")))
         if k not in _AVG:
             _AVG[k] = eqx.filter_jit(lambda e, p, keys, ne=c["num_episodes"], ms=c["max_steps"], det=c["deterministic"]: jax.vmap(lambda kk: average_reward(e, p, ne, ms, det, key=kk))(keys))
         got = np.asarray(_AVG[k](env, pol, jax.vmap(jr.key)(jnp.asarray(c["keys"]))), dtype=np.float64)
@@ -331,6 +340,8 @@ def clause_average(cases, ctx: Ctx):
             cap = c["max_steps"] if c["max_steps"] is not None else 10**6
             while n < cap:
                 a = c["script"][n % len(c["script"])]
+                if c.get("keyed") and not c["deterministic"]:
+                    a = 1 - a  # a sampled (keyed) call of the keyed policy plays the flipped action
                 ai = int(refs.action_index_np(np.asarray(a), c["act_kind"]))
                 s2 = int(T[s, ai])
                 g += float(R[s, ai, s2] + refs.action_term_np(np.asarray(a), c["act_kind"]))
@@ -346,7 +357,7 @@ def clause_average(cases, ctx: Ctx):
         vals = sorted(G.values())
         n = c["num_episodes"]
         allowed = {round(sum(combo) / n, 6) for combo in itertools.combinations_with_replacement(vals, n)}
-        desc = f"S={c['S']} T={c['T']} term={c['term']} init={c['init']} tl={c.get('tl')} script={c['script']} num_episodes={n} max_steps={c['max_steps']} deterministic={c['deterministic']}"
+        desc = f"S={c['S']} T={c['T']} term={c['term']} init={c['init']} tl={c.get('tl')} script={c['script']} num_episodes={n} max_steps={c['max_steps']} deterministic={c['deterministic']}" + (" [policy whose keyed action differs from its key-less action]" if c.get("keyed") else "")
         for ki, kk in enumerate(c["keys"]):
             if not any(refs.close(got[ki], a, 1e-5) for a in allowed):
                 sig = "C19/average-reward/value"
@@ -441,10 +452,23 @@ def explore(ctx: Ctx):
                         script=[0, 1], num_episodes=3, max_steps=4, keys=indep_keys, deterministic=False, independence=True))
     # max_steps=None is only explored where the scripted run reaches a TERMINAL state from every initial state, so that an
     # implementation that overlooks truncation yields a wrong number instead of looping forever
-    avg = [c for c in avg if c["max_steps"] is not None or _ends(c)]
-    ctx.run_parallel("average", avg, workers=8, group_key=lambda c: (bool(c["tl"]), len(c["script"]), c["num_episodes"], c["max_steps"], c["deterministic"]), threads=2)
+    # a policy whose keyed action differs from its key-less action: deterministic=True / False must select the right one on BOTH the
+    # capped and the uncapped path
+    for tab in list(family(2, 2, shaped=False, limits=[(0, 0), (0, 2)]))[:: (2 if thorough else 5)]:
+        for sc in ([0, 1], [1, 1]):
+            for cap in (None, 3):
+                for det in (True, False):
+                    avg.append(dict(tab, script=sc, num_episodes=2, max_steps=cap, keys=keys, deterministic=det, keyed=True))
+    for Tm in ([[1, 1], [1, 1]], [[0, 1], [1, 1]], [[1, 0], [1, 1]]):  # terminal state 1 is reached under the script AND under the flipped script
+        for sc in ([0, 1], [1, 1], [0, 0, 1]):
+            for det in (True, False):
+                avg.append(dict(S=2, A=2, T=Tm, term=[False, True], init=[True, False], limit=0, tl=0, act_kind="discrete", obs_kind="discrete",
+                                script=sc, num_episodes=2, max_steps=None, keys=keys, deterministic=det, keyed=True))
+    avg = [c for c in avg if c["max_steps"] is not None or (_ends(c) and (not c.get("keyed") or _ends(dict(c, script=[1 - a for a in c["script"]]))))]
+    ctx.guard("avg-keyed-uncapped-deterministic", sum(1 for c in avg if c.get("keyed") and c["max_steps"] is None and c["deterministic"]))
+    ctx.run_parallel("average", avg, workers=8, group_key=lambda c: (bool(c["tl"]), len(c["script"]), c["num_episodes"], c["max_steps"], c["deterministic"], bool(c.get("keyed"))), threads=2)
     ctx.nontrivial |= {("avg", i) for i, c in enumerate(avg) if c["tl"] or any(c["term"])}
-    ctx.require("e2e-done-steps", "e2e-envs-differ", "learn-truncated-episodes", "learn-terminated-episodes", "avg-episode-ended-by-flag",
+    ctx.require("e2e-done-steps", "e2e-envs-differ", "learn-truncated-episodes", "learn-terminated-episodes", "avg-episode-ended-by-flag", "avg-keyed-uncapped-deterministic",
                 "avg-episode-ended-by-cap", "avg-multi-init-varied", "avg-independence-cases")
 
 
